@@ -335,6 +335,43 @@ func init() {
 			recordedAtCleanup, ge, lt, tot.SuccessfulIterationDurations.Count+tot.FailedIterationDurations.Count)
 	})
 
+	// scn.measuremany <n> — n short iterations on one worker; after each one a snapshot's period figures cover exactly
+	// that iteration: its recorded duration must be at least what the body measured on its own clock.
+	register("scn.measuremany", func(a []string) string {
+		n := atoi(a[0])
+		var bodyOwn time.Duration
+		sc := &scenarios.Scenario{Name: "s", ScenarioFn: func(*f1testing.T) f1testing.RunFn {
+			return func(*f1testing.T) {
+				t0 := time.Now()
+				x := 0
+				for i := 0; i < 200; i++ {
+					x += i
+				}
+				_ = x
+				bodyOwn = time.Since(t0)
+			}
+		}}
+		as, stats, _ := newActive(sc)
+		as.Setup()
+		st := as.VerifNewIterationState()
+		short, worst := 0, time.Duration(0)
+		for i := 1; i <= n; i++ {
+			as.VerifIterate(st, strconv.Itoa(i))
+			sn := stats.Snapshot(time.Second)
+			rec := sn.SuccessfulIterationDurationsForPeriod.Max
+			if sn.SuccessfulIterationDurationsForPeriod.Count != 1 {
+				return "period-count-not-one"
+			}
+			if rec < bodyOwn {
+				short++
+				if bodyOwn-rec > worst {
+					worst = bodyOwn - rec
+				}
+			}
+		}
+		return fmt.Sprintf("shorterThanBody=%d of=%d worstNs=%d", short, n, worst.Nanoseconds())
+	})
+
 	// scn.counts <workers> <itersPerWorker> <seed> — two consecutive "runs" on ONE metrics instance (reset at
 	// the start of each, as Run.Do does): real iterations on W handles racing with progress snapshots on a
 	// real run.Result; ground truth vs Result.Snapshot() vs Registry.Gather(), per run.
